@@ -176,4 +176,157 @@ example : modMass T0 (str% "U:NoMass") true = .error .unknownModMass := by decid
 example : modComp T0 (str% "U:NoMass") = .error .invalidComp := by decide +kernel
 example : modMass T0 (str% "U:+1x") true = .error .invalidDeltaMass := by decide +kernel
 
+/-! ## E. every error of the resolver is of the `ValueError` family
+
+`Err.isValueErrorFamily` (in `Lemmas/ModDbGeneric.lean`) is true exactly for `unknownMod`, `unknownModMass`,
+`invalidDeltaMass`, `invalidComp`, `deltaMassComp`, `invalidModMass`, `invalidChemFormula`, `invalidGlycanFormula`
+(all subclasses of `ValueError`) and `valueError` (the plain `ValueError` of `str.index`). -/
+
+example : [Err.unknownMod, .unknownModMass, .invalidDeltaMass, .invalidComp, .deltaMassComp, .invalidModMass,
+    .invalidChemFormula, .invalidGlycanFormula, .valueError].all Err.isValueErrorFamily = true := by decide
+example : [Err.typeError, .keyError, .hang, .special].all (fun e => !e.isValueErrorFamily) = true := by decide
+
+/-- For ALL tables: an error of `mod_mass` is of the `ValueError` family, or a `TypeError` / `KeyError` / endless loop —
+and each of these three is traced to a defect of the tables (next three theorems). `Err.special` (the opaque inf / nan
+count of the separated formula form) cannot occur: `mod_mass` never uses a separator. -/
+theorem resolver_errors_are_value_errors (T : Tables) (s : Str) (mono : Bool) (e : Err)
+    (h : modMass T s mono = .error e) :
+    e.isValueErrorFamily = true ∨ e = .typeError ∨ e = .keyError ∨ e = .hang := by
+  rcases firstMass_err T mono _ _ h with h | ⟨h, _⟩ | ⟨h, _⟩ | ⟨h, _⟩
+  · exact .inl h
+  · exact .inr (.inl h)
+  · exact .inr (.inr (.inl h))
+  · exact .inr (.inr (.inr h))
+
+theorem resolver_errors_are_value_errors_comp (T : Tables) (s : Str) (e : Err) (h : modComp T s = .error e) :
+    e.isValueErrorFamily = true ∨ e = .typeError ∨ e = .keyError ∨ e = .hang := by
+  rcases firstComp_err T _ _ h with h | ⟨h, _⟩ | ⟨h, _⟩ | ⟨h, _⟩
+  · exact .inl h
+  · exact .inr (.inl h)
+  · exact .inr (.inr (.inl h))
+  · exact .inr (.inr (.inr h))
+
+/-- `TypeError` only from a monosaccharide entry without mono mass, average mass or composition -/
+theorem typeError_provenance (T : Tables) (s : Str) (mono : Bool)
+    (h : modMass T s mono = .error .typeError ∨ modComp T s = .error .typeError) :
+    ∃ en ∈ T.mono, en.mono = none ∨ en.avg = none ∨ en.comp = none := by
+  have : ErrOK T .typeError := by
+    rcases h with h | h
+    · exact firstMass_err T mono _ _ h
+    · exact firstComp_err T _ _ h
+  rcases this with h | ⟨_, h⟩ | ⟨h, _⟩ | ⟨h, _⟩
+  · cases h
+  · exact h
+  · cases h
+  · cases h
+
+/-- `KeyError` only from an element row (not an isotope key) without an average mass -/
+theorem keyError_provenance (T : Tables) (s : Str) (mono : Bool)
+    (h : modMass T s mono = .error .keyError ∨ modComp T s = .error .keyError) :
+    ∃ el ∈ T.mass.elems, el.avg = none ∧ isIsoKey el.sym = false := by
+  have : ErrOK T .keyError := by
+    rcases h with h | h
+    · exact firstMass_err T mono _ _ h
+    · exact firstComp_err T _ _ h
+  rcases this with h | ⟨h, _⟩ | ⟨_, h⟩ | ⟨h, _⟩
+  · cases h
+  · cases h
+  · exact h
+  · cases h
+
+/-- an endless loop only from an empty monosaccharide name / synonym -/
+theorem hang_provenance (T : Tables) (s : Str) (mono : Bool)
+    (h : modMass T s mono = .error .hang ∨ modComp T s = .error .hang) :
+    [] ∈ namesSorted T.mono := by
+  have : ErrOK T .hang := by
+    rcases h with h | h
+    · exact firstMass_err T mono _ _ h
+    · exact firstComp_err T _ _ h
+  rcases this with h | ⟨h, _⟩ | ⟨h, _⟩ | ⟨_, h⟩
+  · cases h
+  · cases h
+  · cases h
+  · exact h
+
+/-- the readers below the resolver never produce the opaque `special` error without a separator -/
+theorem no_special (T : Tables) (s : Str) (mono : Bool) :
+    parseChem s [] ≠ .error .special ∧ chemMassStr T.mass mono s [] ≠ .error .special ∧
+    glycanMassStr T.mono mono s ≠ .error .special ∧ glycanCompStr T.mono s ≠ .error .special ∧
+    modMass T s mono ≠ .error .special ∧ modComp T s ≠ .error .special := by
+  have hs : ¬ ErrOK T .special := by
+    rintro (h | ⟨h, _⟩ | ⟨h, _⟩ | ⟨h, _⟩) <;> cases h
+  refine ⟨fun h => ?_, fun h => ?_, fun h => ?_, fun h => ?_, fun h => ?_, fun h => ?_⟩
+  · exact absurd (parseChem_err _ _ h) (by decide)
+  · exact hs (chemMassStr_err T mono _ _ h)
+  · exact hs (glycanMassStr_err T mono _ _ h)
+  · exact hs (glycanCompStr_err T _ _ h)
+  · exact hs (firstMass_err T mono _ _ h)
+  · exact hs (firstComp_err T _ _ h)
+
+/-! ### the generated tables have none of the three defects -/
+
+/-- every monosaccharide entry of the generated table has mono mass, average mass and composition -/
+theorem gen_mono_complete : ∀ en ∈ Gen.Mono.entries, en.mono ≠ none ∧ en.avg ≠ none ∧ en.comp ≠ none := by
+  decide +kernel
+
+/-- every monosaccharide name / synonym of the generated table is non-empty -/
+theorem gen_names_nonempty : [] ∉ namesSorted Gen.Mono.entries := by
+  decide +kernel
+
+/-- every element row of the generated table is an isotope key or has an average mass -/
+theorem gen_elems_avg : ∀ el ∈ Gen.ElementsC15.elems, el.avg ≠ none ∨ isIsoKey el.sym = true := by
+  decide +kernel
+
+/-- **Generated tables**: every error of `mod_mass` is of the `ValueError` family -/
+theorem resolver_errors_gen (s : Str) (mono : Bool) (e : Err) (h : modMass Gen.tables s mono = .error e) :
+    e.isValueErrorFamily = true := by
+  rcases resolver_errors_are_value_errors Gen.tables s mono e h with h' | h' | h' | h'
+  · exact h'
+  · subst h'
+    obtain ⟨en, hen, hd⟩ := typeError_provenance Gen.tables s mono (.inl h)
+    obtain ⟨h1, h2, h3⟩ := gen_mono_complete en hen
+    rcases hd with hd | hd | hd <;> contradiction
+  · subst h'
+    obtain ⟨el, hel, h1, h2⟩ := keyError_provenance Gen.tables s mono (.inl h)
+    rcases gen_elems_avg el hel with h3 | h3
+    · contradiction
+    · rw [h2] at h3; cases h3
+  · subst h'
+    exact absurd (hang_provenance Gen.tables s mono (.inl h)) gen_names_nonempty
+
+/-- **Generated tables**: every error of `mod_comp` is of the `ValueError` family -/
+theorem resolver_errors_gen_comp (s : Str) (e : Err) (h : modComp Gen.tables s = .error e) :
+    e.isValueErrorFamily = true := by
+  rcases resolver_errors_are_value_errors_comp Gen.tables s e h with h' | h' | h' | h'
+  · exact h'
+  · subst h'
+    obtain ⟨en, hen, hd⟩ := typeError_provenance Gen.tables s true (.inr h)
+    obtain ⟨h1, h2, h3⟩ := gen_mono_complete en hen
+    rcases hd with hd | hd | hd <;> contradiction
+  · subst h'
+    obtain ⟨el, hel, h1, h2⟩ := keyError_provenance Gen.tables s true (.inr h)
+    rcases gen_elems_avg el hel with h3 | h3
+    · contradiction
+    · rw [h2] at h3; cases h3
+  · subst h'
+    exact absurd (hang_provenance Gen.tables s true (.inr h)) gen_names_nonempty
+
+/-- Together with C: on the generated tables a modification none of whose alternatives is of a documented form raises a
+`ValueError`-family error, and *every* failure of `mod_mass` / `mod_comp` is of that family — never a silent zero. -/
+theorem unresolvable_raises_value_error (s : Str) (mono : Bool)
+    (h : ∀ a ∈ splitBar s, massForm Gen.tables a = false) :
+    ∃ e, modMass Gen.tables s mono = .error e ∧ e.isValueErrorFamily = true :=
+  ⟨.invalidModMass, unresolvable_mass_raises Gen.tables s mono h, rfl⟩
+
+-- the three defects, on toy tables (non-vacuity of the provenance theorems)
+def Tbad : Tables :=
+  { T0 with mono := [⟨str% "X", str% "Hex", [], none, none, none⟩],
+            mass := { T0.mass with elems := [⟨str% "C", ⟨12, 0⟩, none, none⟩] } }
+example : modMass Tbad (str% "Glycan:Hex2") true = .error .typeError := by decide +kernel
+example : modMass Tbad (str% "Formula:C") false = .error .keyError := by decide +kernel
+example : modMass { T0 with mono := [⟨str% "X", [], [], none, none, none⟩] } (str% "Glycan:Q") true = .error .hang := by
+  decide +kernel
+example : modMass T0 (str% "Formula:[C") true = .error .valueError := by decide +kernel
+example : modMass T0 (str% "Formula:C]") true = .error .invalidChemFormula := by decide +kernel
+
 end C10Resolve
